@@ -29,7 +29,7 @@ package report
 //@   loop 1: invariant $ncalls == old($ncalls) + 1 + (cause1(err) != nil ? errbase.treeSize(cause1(err)) : 0) + errbase.sizeTo(causes(err), $n)
 
 //@ func BuildSentryReport
-//@   props C15
+//@   props C15 C03
 //@   groundunfold cntSt treeSize sizeTo
 //@   ensures err == nil ==> event == nil && extraDetails == nil
 //@   ensures err != nil ==> event != nil && len(stacks) == len(details)
@@ -38,6 +38,10 @@ package report
 //@   ensures err != nil && cntSt(stacks, 0) == 0 ==> len(event.Exception) == 1 && event.Exception[0].Module == domainOf(err) && event.Exception[0].Stacktrace == nil
 //@   ensures err != nil && cntSt(stacks, 0) > 0 ==> len(event.Exception) == cntSt(stacks, 0)
 //@   ensures err != nil ==> (forall j int :: 0 <= j && j < len(stacks) && stacks[j] != nil ==> event.Exception[cntSt(stacks, 0) - 1 - cntSt(stacks, j + 1)].Stacktrace == stacks[j] && event.Exception[cntSt(stacks, 0) - 1 - cntSt(stacks, j + 1)].Module == domainOf(err))
+// C03: the verbose text that goes into the message (and, through its first line, into the first
+// exception's value) is the redacted form of the WHOLE redactable rendering - cutting or editing
+// the redactable string before Redact() would have no derivation of "keeps its PII inside markers"
+//@   ensures[C03] err != nil ==> safeS(verboseErr)
 //@   ensures err != nil ==> hasPrefix(event.Message, (withstack.olsOk(err) ? sprintf2("%s:%d: ", ifaceOf(withstack.olsFile(err)), ifaceOf(withstack.olsLine(err))) : "") + verboseErr)
 //@   callback visitAllMulti: invariant len(stacks) == $ncalls && len(details) == $ncalls
 //@                           invariant forall k int :: 0 <= k && k < $ncalls ==> details[k] == errbase.sdOf($call(k))
